@@ -474,6 +474,46 @@ func (p *Puppet) DumpWith(keys [][]byte, label string) (map[string]NodeRec, erro
 	return out, nil
 }
 
+// DumpVia performs the empty push/pull against an arbitrary node address.
+func DumpVia(obs *simnet.Endpoint, addr string, conf NodeConf, nonceSeed uint64) (map[string]NodeRec, error) {
+	var nb [8]byte
+	binary.LittleEndian.PutUint64(nb[:], nonceSeed)
+	h := sha256.Sum256(nb[:])
+	b := wire.PushPull(false, nil, nil)
+	if len(conf.Keys) > 0 {
+		b = wire.StreamSeal(conf.EncVsn(), conf.Keys[0], h[:12], b, conf.Label)
+	}
+	b = wire.LabelWrap(b, conf.Label)
+	c, err := obs.Dial(addr, time.Second)
+	if err != nil {
+		return nil, err
+	}
+	defer c.Close()
+	if _, err := c.Write(b); err != nil {
+		return nil, err
+	}
+	reply, rerr := c.ReadAllFor(5 * time.Second)
+	if rerr != nil && rerr != io.EOF {
+		return nil, rerr
+	}
+	cd := wire.Codec{Label: conf.Label}
+	if !conf.NoVerifyOut {
+		cd.Keys = conf.Keys
+	}
+	sm, err := cd.DecodeStream(reply)
+	if err != nil {
+		return nil, fmt.Errorf("dump: cannot decode %d-byte reply: %w", len(reply), err)
+	}
+	if sm.Type != wire.PushPullMsg {
+		return nil, fmt.Errorf("dump: reply is %s %+v", wire.TypeName(sm.Type), sm.V)
+	}
+	out := map[string]NodeRec{}
+	for _, n := range sm.Nodes {
+		out[n.Name] = NodeRec{Name: n.Name, Addr: net.IP(n.Addr).String(), Port: n.Port, Meta: string(n.Meta), Inc: n.Incarnation, State: n.State, Vsn: string(n.Vsn)}
+	}
+	return out, nil
+}
+
 // MemberNames returns the sorted names in Members().
 func (p *Puppet) MemberNames() []string {
 	var out []string
